@@ -241,7 +241,7 @@ def create_node(
         return decider.random_bool()
     elif is_generic_tuple(starting_symbol):
         types = get_generic_parameters(starting_symbol)
-        vals = (create_node(global_context, t, context, {}) for t in types)  # TODO Dependent Types (Tuples)
+        vals = tuple(create_node(global_context, t, context, {}) for t in types)  # TODO Dependent Types (Tuples)
         return wrap_result(vals, global_context, context)
     elif is_generic_list(starting_symbol):
         inner_type = get_generic_parameter(starting_symbol)
